@@ -132,7 +132,11 @@ pub fn cmd_worker(args: &[String]) -> i32 {
         }
         out_line(&format!("B {}", run));
         let sc = p.generate(seed, run, tier);
+        let t_run = Instant::now();
         let rep = p.check(&sc);
+        if std::env::var("VERIF_SLOW").is_ok() && t_run.elapsed().as_secs_f64() > 3.0 {
+            eprintln!("slow run {}: {:.1}s execs={} steps={} probes={:?}", run, t_run.elapsed().as_secs_f64(), rep.execs, rep.steps, rep.probes);
+        }
         let mini = serde_json::json!({
             "execs": rep.execs,
             "steps": rep.steps,
